@@ -31,6 +31,7 @@ PINS = {
     'structures.py::GeoPolygon.bounds': 'd90aead0fc54814e',          # SrcMember: `self.bounds` is the outline's bounding box
     'collections.py::Track.__init__': '01f0c36a2b9a4fbb',            # SrcColl: `type(self)(xs)` is the model's `rewrap`
     'collections.py::CollectionBase.__init__': '998def96113cc433',
+    'utils/functions.py::is_sub_list': 'a65933a1f69295ee',            # SrcRelate: the model's `isSubList`
     '_geometry.py::do_edges_intersect': 'c6c432c7d6b4dfad',          # SrcRelate: the model's sweep (tied by C02's streams)
 }
 
@@ -332,24 +333,53 @@ def relate_unit():
         Inst(f'{P}.intersects_shape', 'intersectsPoint', [('self', 'PolyS'), ('shape', 'PtA')], 'Bool'),
         Inst(f'{P}.intersects_shape', 'intersectsPoly', [('self', 'PolyS'), ('shape', 'PolyA')], E),
         Inst(f'{P}.intersects_shape', 'intersectsLine', [('self', 'PolyS'), ('shape', 'LineA')], E),
+        Inst('_is_on_segment', 'isOnSegment', [('coord', 'Pt'), ('start', 'Pt'), ('end', 'Pt')], 'Bool'),
+        # GeoLineString as the receiver
+        Inst('GeoLineString.contains_coordinate', 'lineContainsCoordinate', [('self', 'LineS'), ('coord', 'Pt')], 'Bool'),
+        Inst('GeoLineString.contains_shape', 'lineContainsMulti', [('self', 'LineS'), ('shape', 'MultiA')], 'Bool'),
+        Inst('GeoLineString.contains_shape', 'lineContainsPoly', [('self', 'LineS'), ('shape', 'PolyA')], 'Bool'),
+        Inst('GeoLineString.contains_shape', 'lineContainsPoint', [('self', 'LineS'), ('shape', 'PtA')], 'Bool'),
+        Inst('GeoLineString.contains_shape', 'lineContainsLine', [('self', 'LineS'), ('shape', 'LineA')], 'Bool'),
+        Inst('GeoLineString.intersects_shape', 'lineIntersectsMulti', [('self', 'LineS'), ('shape', 'MultiA')], 'Bool'),
+        Inst('GeoLineString.intersects_shape', 'lineIntersectsPoint', [('self', 'LineS'), ('shape', 'PtA')], 'Bool'),
+        Inst('GeoLineString.intersects_shape', 'lineIntersectsPoly', [('self', 'LineS'), ('shape', 'PolyA')], E),
+        Inst('GeoLineString.intersects_shape', 'lineIntersectsLine', [('self', 'LineS'), ('shape', 'LineA')], E),
+        # GeoPoint as the receiver
+        Inst('GeoPoint.contains_coordinate', 'pointContainsCoordinate', [('self', 'PtS'), ('coord', 'Pt')], 'Bool'),
+        Inst('GeoPoint.contains_shape', 'pointContainsMulti', [('self', 'PtS'), ('shape', 'MultiA')], 'Bool'),
+        Inst('GeoPoint.contains_shape', 'pointContainsPoint', [('self', 'PtS'), ('shape', 'PtA')], 'Bool'),
+        Inst('GeoPoint.contains_shape', 'pointContainsPoly', [('self', 'PtS'), ('shape', 'PolyA')], 'Bool'),
+        Inst('GeoPoint.contains_shape', 'pointContainsLine', [('self', 'PtS'), ('shape', 'LineA')], 'Bool'),
+        Inst('GeoPoint.intersects_shape', 'pointIntersectsPoint', [('self', 'PtS'), ('shape', 'PtA')], 'Bool'),
+        Inst('GeoPoint.intersects_shape', 'pointIntersectsPoly', [('self', 'PtS'), ('shape', 'PolyA')], 'Bool'),
+        Inst('GeoPoint.intersects_shape', 'pointIntersectsLine', [('self', 'PtS'), ('shape', 'LineA')], 'Bool'),
     ]
-    for t in ('PolyS', 'PolyA', 'LineA', 'PtA', 'Any'):
+    for t in ('PolyS', 'PolyA', 'LineA', 'PtA', 'Any', 'LineS', 'PtS'):
         py2lean.LEAN_TYPE.setdefault(t, 'GV.Shape')
     py2lean.LEAN_TYPE.setdefault('MultiA', 'List GV.Shape')
     py2lean.LEAN_TYPE.setdefault('Hole', 'List GV.Pt')
     py2lean.LEAN_TYPE.setdefault('Edge', 'GV.Edge')
 
     def isinstance_hook(typ):
-        return {'MultiA': {'MultiShape'}, 'PtA': {'PointLike'}, 'PolyA': {'PolygonLike'}, 'LineA': {'LineLike'},
-                'PolyS': {'PolygonLike'}}.get(typ)
+        return {'MultiA': {'MultiShape'}, 'PtA': {'PointLike', 'GeoPoint'}, 'PolyA': {'PolygonLike'}, 'LineA': {'LineLike'},
+                'PolyS': {'PolygonLike'}, 'LineS': {'LineLike'}, 'PtS': {'PointLike', 'GeoPoint'}}.get(typ)
 
     def sweep(tr, args):
         if [a.typ for a in args] != ['List Prod Pt Pt', 'List Prod Pt Pt']:
             raise Unsupported(f'do_edges_intersect({", ".join(a.typ for a in args)})')
         return Val(f'(GV.doEdgesIntersect {args[0].text} {args[1].text})', 'Bool')
 
+    def sub_list(tr, args):
+        if [a.typ for a in args] != ['List Pt', 'List Pt']:
+            raise Unsupported(f'is_sub_list({", ".join(a.typ for a in args)})')
+        return Val(f'(GV.isSubList {args[0].text} {args[1].text})', 'Bool')
+
     ER = 'List List Prod Pt Pt'
     abstract = {
+        ('LineS', '__contains__', ('Pt',)): ('cc {0} {1}', 'Bool'),
+        ('LineS', 'contains_shape', ('Any',)): ('rs {0} {1}', 'Bool'), ('LineS', 'intersects_shape', ('Any',)): ('ri {0} {1}', 'Bool'),
+        ('PtS', 'contains_shape', ('Any',)): ('rs {0} {1}', 'Bool'),
+        ('PolyA', 'intersects_shape', ('PtS',)): ('ri {0} {1}', 'Bool'), ('LineA', 'intersects_shape', ('PtS',)): ('ri {0} {1}', 'Bool'),
         ('PolyS', 'edges', ()): ('edgesOf {0}', ER), ('PolyA', 'edges', ()): ('edgesOf {0}', ER),
         ('PolyS', 'contains_coordinate', ('Pt',)): ('cc {0} {1}', 'Bool'),
         ('PolyS', '_touches_coordinate', ('Pt',)): ('tc {0} {1}', 'Bool'),
@@ -359,15 +389,20 @@ def relate_unit():
         ('Hole', 'bounding_coords', ()): ('{0}', 'List Pt'),
     }
     attr = {('MultiA', 'geoshapes'): ('{}', 'List Any'), ('PtA', 'centroid'): ('(cen {})', 'Pt'),
-            ('LineA', 'segments'): ('(segsOf {})', 'List Prod Pt Pt'), ('PolyS', 'holes'): ('(holesOf {})', 'List Hole')}
+            ('PtS', 'centroid'): ('(cen {})', 'Pt'), ('PtS', 'coordinate'): ('(cen {})', 'Pt'), ('PtA', 'coordinate'): ('(cen {})', 'Pt'),
+            ('LineA', 'segments'): ('(segsOf {})', 'List Prod Pt Pt'), ('LineS', 'segments'): ('(segsOf {})', 'List Prod Pt Pt'),
+            ('LineA', 'vertices'): ('(vertsOf {})', 'List Pt'), ('LineS', 'vertices'): ('(vertsOf {})', 'List Pt'),
+            ('Pt', 'longitude'): ('{}.1', 'R'), ('Pt', 'latitude'): ('{}.2', 'R'),
+            ('PolyS', 'holes'): ('(holesOf {})', 'List Hole')}
     return Unit('SrcRelate', src, 'GV.Src.Relate', ['GeoVerif.Model.Relate', 'GeoVerif.Model.PyPrelude'], insts,
-                {'PolyS': P}, attr_types=attr, abstract=abstract,
-                pins={'_geometry.py::do_edges_intersect': PINS['_geometry.py::do_edges_intersect']},
-                intrinsics={'do_edges_intersect': sweep},
+                {'PolyS': P, 'LineS': 'GeoLineString', 'PtS': 'GeoPoint'}, attr_types=attr, abstract=abstract,
+                pins={k: PINS[k] for k in ('_geometry.py::do_edges_intersect', 'utils/functions.py::is_sub_list')},
+                intrinsics={'do_edges_intersect': sweep, 'is_sub_list': sub_list},
                 hooks={'isinstance': isinstance_hook, 'keywords': lambda tr, e: True},
                 ctx_params=[('edgesOf', 'GV.Shape → List (List GV.Edge)'), ('segsOf', 'GV.Shape → List GV.Edge'),
                             ('cc', 'GV.Shape → GV.Pt → Bool'), ('tc', 'GV.Shape → GV.Pt → Bool'),
                             ('holesOf', 'GV.Shape → List (List GV.Pt)'), ('cen', 'GV.Shape → GV.Pt'),
+                            ('vertsOf', 'GV.Shape → List GV.Pt'),
                             ('rs', 'GV.Shape → GV.Shape → Bool'), ('ri', 'GV.Shape → GV.Shape → Bool')])
 
 
